@@ -173,6 +173,9 @@ func (m *fsModel) eventsDepth(fn *ssa.Function, depth int, busy map[*ssa.Functio
 		}
 		name := eng.CalleeName(call.Common())
 		if op, ok := fsEventOps[name]; ok {
+			if name == "os.OpenFile" {
+				op = openFileKind(call)
+			}
 			ev := fsEv{at: in, prim: call, op: op, direct: true}
 			for i := 0; i < fsMutators[name]; i++ {
 				ev.class = append(ev.class, m.classIn(call.Call.Args[i], envOfChain(prefix), 0))
@@ -292,4 +295,32 @@ func succeedsOnlyAfterPred(g *ssa.Function, isOp func(ssa.Instruction) bool) boo
 
 func isErrorType(t types.Type) bool {
 	return types.Identical(t, types.Universe.Lookup("error").Type())
+}
+
+// openFileKind classifies an os.OpenFile call by its constant flag argument: "Create" when it
+// is the long form of os.Create (O_CREATE|O_TRUNC, writable, neither O_EXCL nor O_APPEND),
+// "OpenFile:excl" when it refuses an existing file, "OpenFile" otherwise.
+func openFileKind(call *ssa.Call) string {
+	if len(call.Call.Args) < 2 {
+		return "OpenFile"
+	}
+	k, ok := eng.ConstInt(call.Call.Args[1])
+	if !ok {
+		return "OpenFile"
+	}
+	const (
+		oWRONLY = 0x1
+		oRDWR   = 0x2
+		oAPPEND = 0x400
+		oCREATE = 0x40
+		oEXCL   = 0x80
+		oTRUNC  = 0x200
+	)
+	switch {
+	case k&oEXCL != 0:
+		return "OpenFile:excl"
+	case k&oCREATE != 0 && k&oTRUNC != 0 && k&oAPPEND == 0 && k&(oWRONLY|oRDWR) != 0:
+		return "Create"
+	}
+	return "OpenFile"
 }
